@@ -1,29 +1,22 @@
 (* TypecheckProofs.v — soundness of the typechecker model `tc` against the model evaluator `eval`
    (property C03), for the fragment `in_fragment`. *)
 From Coq Require Import Lia.
-From Cedar Require Import Typecheck ValueProofs.
+From Cedar Require Import Typecheck ValueProofs ConformProofs ExprEq.
 
 (* ---------------------------------------------------------------------------------------
    the covered fragment (syntactic) *)
+(* access paths: a variable followed by attribute selections *)
+Fixpoint is_path (e : expr) : bool :=
+  match e with
+  | Var _ => true
+  | GetAttr x _ => is_path x
+  | _ => false
+  end.
+
+(* boolean-rooted forms (branches of the `if` of the fragment) *)
 Definition boolish (e : expr) : bool :=
   match e with
   | And _ _ | Or _ _ | UnApp UNot _ | BinApp BEq _ _ | HasAttr _ _ | Lit (PBool _) => true
-  | _ => false
-  end.
-
-Definition capless (e : expr) : bool :=
-  match e with
-  | BinApp BEq _ _ | UnApp UNot _ | Lit _ | Var _ | GetAttr _ _ => true
-  | _ => false
-  end.
-
-Fixpoint in_fragment (e : expr) : bool :=
-  match e with
-  | Lit _ | Var _ => true
-  | And a b | BinApp BEq a b => in_fragment a && in_fragment b
-  | Or a b => in_fragment a && in_fragment b && capless b
-  | UnApp UNot a => in_fragment a
-  | HasAttr (Var Context) _ | GetAttr (Var Context) _ => true
   | _ => false
   end.
 
@@ -31,10 +24,12 @@ Fixpoint in_fragment (e : expr) : bool :=
    hypotheses of the soundness statement *)
 Definition allowed_err (c : err) : Prop := c = ErrEntityMissing \/ c = ErrOverflow \/ c = ErrExt.
 
-(* a capability holds: wherever its expression evaluates, the attribute is there *)
+(* a capability holds: wherever its expression evaluates, the attribute / tag is there *)
 Definition cap_holds (q : request) (es : entities) (c : cap) : Prop :=
   match c with
   | mkCap CAttr x (Lit (PString a)) => forall v, eval [] q es x = Ok v -> has_attr es v a = Ok (VBool true)
+  | mkCap CTag x k =>
+      forall v kv, eval [] q es x = Ok v -> eval [] q es k = Ok kv -> binary_app es BHasTag v kv = Ok (VBool true)
   | _ => True
   end.
 Definition caps_hold (q : request) (es : entities) (cs : caps) : Prop := forall c, In c cs -> cap_holds q es c.
@@ -46,25 +41,48 @@ Record env_ok (env : reqenv) (q : request) : Prop := {
   eo_r : uty (rresource q) = re_resource env;
   eo_c : TypeConforms (VRecord (rcontext q)) (re_context env) }.
 
-(* every entity of the store conforms to the schema (declarative specification of Conform.v) *)
+(* every entity of the store conforms to the schema (declarative specification of Conform.v; equivalent to
+   the boolean checker conf_entity by c11_entity) *)
 Definition store_ok (sch : schema) (es : entities) : Prop :=
   forall u d, find_entity u es = Some d -> EntityConforms sch (u, d).
 
-Definition sound_result (q : request) (es : entities) (e : expr) (t : ty) (cs' : caps) : Prop :=
+(* a type that only `true` inhabits (or nothing) *)
+Definition always_true (t : ty) : Prop := t = TBool BTrue \/ t = TNever.
+
+Definition dyn_result (q : request) (es : entities) (e : expr) (t : ty) (cs' : caps) : Prop :=
   (exists c, eval [] q es e = Err c /\ allowed_err c) \/
   (exists v, eval [] q es e = Ok v /\ TypeConforms v t /\ (v = VBool true -> caps_hold q es cs')).
 
+(* the invariant of the induction: the capabilities of a True-typed expression hold unconditionally
+   (this is what lets `a || b` with b : True export b's capabilities without evaluating b) *)
+Definition sound_result (q : request) (es : entities) (e : expr) (t : ty) (cs' : caps) : Prop :=
+  (always_true t -> caps_hold q es cs') /\ dyn_result q es e t cs'.
+
+Definition IHfor (m : vmode) (sch : schema) (env : reqenv) (q : request) (es : entities) (e : expr) : Prop :=
+  forall cs t cs', caps_hold q es cs -> tc m sch env cs e = Some (t, cs') -> sound_result q es e t cs'.
+
 (* ---------------------------------------------------------------------------------------
    basic facts *)
+Lemma at_true : always_true (TBool BTrue). Proof. left; reflexivity. Qed.
+Lemma at_never : always_true TNever. Proof. right; reflexivity. Qed.
+
 Lemma caps_hold_nil q es : caps_hold q es [].
 Proof. intros c []. Qed.
 
 Lemma caps_hold_app q es a b : caps_hold q es a -> caps_hold q es b -> caps_hold q es (caps_union a b).
 Proof. intros Ha Hb c Hc. apply in_app_or in Hc. destruct Hc; auto. Qed.
 
-Lemma caps_hold_inter q es a b : caps_hold q es a -> caps_hold q es (caps_inter a b).
-Proof. intros Ha c Hc. apply filter_In in Hc. apply Ha, Hc. Qed.
+Lemma caps_hold_inter_l q es a b : caps_hold q es a -> caps_hold q es (caps_inter a b).
+Proof. intros Ha c Hc. apply caps_inter_In in Hc. apply Ha, Hc. Qed.
+Lemma caps_hold_inter_r q es a b : caps_hold q es b -> caps_hold q es (caps_inter a b).
+Proof. intros Hb c Hc. apply caps_inter_In in Hc. apply Hb, Hc. Qed.
 
+#[local] Hint Resolve at_true at_never caps_hold_nil caps_hold_app caps_hold_inter_l caps_hold_inter_r : c03.
+
+Ltac stat := let Hat := fresh "Hat" in intros Hat;
+  first [ (destruct Hat as [Hat|Hat]; discriminate Hat) | eauto 10 with c03 ].
+Ltac get_expect H t c E :=
+  match type of H with context [expect ?r ?l] => destruct (expect r l) as [[t c]|] eqn:E end; [|discriminate].
 Lemma expect_inv r l t c :
   expect r l = Some (t, c) -> r = Some (t, c) /\ existsb (subty Permissive t) l = true.
 Proof.
@@ -121,171 +139,104 @@ Proof. reflexivity. Qed.
 Lemma eval_hasattr q es x a : eval [] q es (HasAttr x a) = (do v <- eval [] q es x; has_attr es v a).
 Proof. reflexivity. Qed.
 
+
 (* ---------------------------------------------------------------------------------------
    && *)
 Lemma sound_and m sch env q es a b :
-  (forall cs t cs', caps_hold q es cs -> tc m sch env cs a = Some (t, cs') -> sound_result q es a t cs') ->
-  (forall cs t cs', caps_hold q es cs -> tc m sch env cs b = Some (t, cs') -> sound_result q es b t cs') ->
-  forall cs t cs', caps_hold q es cs -> tc m sch env cs (And a b) = Some (t, cs') -> sound_result q es (And a b) t cs'.
+  IHfor m sch env q es a -> IHfor m sch env q es b -> IHfor m sch env q es (And a b).
 Proof.
   intros IHa IHb cs t cs' Hcs Htc. cbn [tc] in Htc.
-  destruct (expect (tc m sch env cs a) [TBool BAny]) as [[ta ca]|] eqn:Ea; [|discriminate].
-  apply expect_inv in Ea. destruct Ea as [Ea Hsa].
-  destruct (IHa _ _ _ Hcs Ea) as [(c & He & Hc)|(va & He & Hva & Hcapa)].
-  { left. exists c. rewrite eval_and, He. auto. }
-  destruct (boolean_value _ _ Hsa Hva) as (xa & ba & -> & -> & Hba).
-  unfold sound_result. rewrite eval_and, He. cbn [bind as_bool VBool].
-  destruct ba.
-  - (* left operand true: the right one is evaluated under the capabilities of the left *)
-    assert (Hcs2 : caps_hold q es (caps_union cs ca)) by (apply caps_hold_app; auto).
-    destruct xa; try discriminate Hba.
-    + (* ta = Bool *)
-      destruct (expect (tc m sch env (caps_union cs ca) b) [TBool BAny]) as [[tb cb]|] eqn:Eb; [|discriminate].
-      apply expect_inv in Eb. destruct Eb as [Eb Hsb].
-      destruct (IHb _ _ _ Hcs2 Eb) as [(c & He2 & Hc)|(vb & He2 & Hvb & Hcapb)].
-      { left. exists c. rewrite He2. auto. }
-      destruct (boolean_value _ _ Hsb Hvb) as (xb & bb & -> & -> & Hbb).
-      right. rewrite He2. cbn [bind as_bool VBool]. exists (VBool bb). split; [reflexivity|].
-      destruct xb; inversion Htc; subst; (split; [apply conf_vbool; auto|]); intros Hv; apply vbool_inj in Hv; subst;
-        try discriminate; try apply caps_hold_nil; try (apply caps_hold_app; auto).
-    + (* ta = True *)
-      destruct (expect (tc m sch env (caps_union cs ca) b) [TBool BAny]) as [[tb cb]|] eqn:Eb; [|discriminate].
-      apply expect_inv in Eb. destruct Eb as [Eb Hsb].
-      destruct (IHb _ _ _ Hcs2 Eb) as [(c & He2 & Hc)|(vb & He2 & Hvb & Hcapb)].
-      { left. exists c. rewrite He2. auto. }
-      destruct (boolean_value _ _ Hsb Hvb) as (xb & bb & -> & -> & Hbb).
-      right. rewrite He2. cbn [bind as_bool VBool]. exists (VBool bb). split; [reflexivity|].
-      destruct xb; inversion Htc; subst; (split; [apply conf_vbool; auto|]); intros Hv; apply vbool_inj in Hv; subst;
-        try discriminate; try apply caps_hold_nil; try (apply caps_hold_app; auto).
-  - (* left operand false *)
-    right. exists (VBool false). split; [reflexivity|].
-    destruct xa; try discriminate Hba.
-    + destruct (expect (tc m sch env (caps_union cs ca) b) [TBool BAny]) as [[tb cb]|] eqn:Eb; [|discriminate].
-      apply expect_inv in Eb. destruct Eb as [Eb Hsb].
-      destruct (sub_bool_shape _ Hsb) as [[xb ->]| ->];
-        [destruct xb|]; inversion Htc; subst; (split; [apply conf_vbool; auto|]); intros Hv; discriminate Hv.
-    + inversion Htc; subst. split; [apply conf_vbool; auto|]. intros Hv; discriminate Hv.
+  get_expect Htc ta ca Ea. apply expect_inv in Ea. destruct Ea as [Ea Hsa].
+  destruct (IHa _ _ _ Hcs Ea) as [Sa Da].
+  assert (Hb : forall tb cb, tc m sch env (caps_union cs ca) b = Some (tb, cb) ->
+               caps_hold q es (caps_union cs ca) -> sound_result q es b tb cb) by (intros; eapply IHb; eauto).
+  split.
+  - (* static part *)
+    destruct (sub_bool_shape _ Hsa) as [[xa ->]| ->]; [destruct xa|];
+      try (inversion Htc; subst; stat; fail);
+      (get_expect Htc tb cb Eb; apply expect_inv in Eb; destruct Eb as [Eb Hsb];
+       destruct (sub_bool_shape _ Hsb) as [[xb ->]| ->]; [destruct xb|]; inversion Htc; subst;
+       let Hat := fresh "Hat" in intros Hat;
+       first [ (destruct Hat as [Hat|Hat]; discriminate Hat)
+             | (assert (Hca : caps_hold q es ca) by (apply Sa; eauto with c03);
+                destruct (Hb _ _ Eb (caps_hold_app _ _ _ _ Hcs Hca)) as [Sb _];
+                eauto 8 with c03) ]).
+  - (* dynamic part *)
+    unfold dyn_result. destruct Da as [(c & He & Hc)|(va & He & Hva & Hcapa)].
+    { left. exists c. rewrite eval_and, He. auto. }
+    destruct (boolean_value _ _ Hsa Hva) as (xa & ba & -> & -> & Hba).
+    rewrite eval_and, He. cbn [bind as_bool VBool].
+    destruct ba.
+    + assert (Hcs2 : caps_hold q es (caps_union cs ca)) by (apply caps_hold_app; auto).
+      destruct xa; try discriminate Hba;
+        (get_expect Htc tb cb Eb; apply expect_inv in Eb; destruct Eb as [Eb Hsb];
+         destruct (Hb _ _ Eb Hcs2) as [Sb [(c & He2 & Hc)|(vb & He2 & Hvb & Hcapb)]];
+         [left; exists c; rewrite He2; auto|];
+         destruct (boolean_value _ _ Hsb Hvb) as (xb & bb & -> & -> & Hbb);
+         right; rewrite He2; cbn [bind as_bool VBool]; exists (VBool bb); split; [reflexivity|];
+         destruct xb; inversion Htc; subst; (split; [apply conf_vbool; auto|]);
+         intros Hv; apply vbool_inj in Hv; subst; try discriminate; eauto 6 with c03).
+    + right. exists (VBool false). split; [reflexivity|].
+      destruct xa; try discriminate Hba.
+      * get_expect Htc tb cb Eb. apply expect_inv in Eb. destruct Eb as [Eb Hsb].
+        destruct (sub_bool_shape _ Hsb) as [[xb ->]| ->];
+          [destruct xb|]; inversion Htc; subst; (split; [apply conf_vbool; auto|]); intros Hv; discriminate Hv.
+      * inversion Htc; subst. split; [apply conf_vbool; auto|]. intros Hv; discriminate Hv.
 Qed.
 
 (* ---------------------------------------------------------------------------------------
-   ||  (the right operand is restricted to forms that produce no capability: see in_fragment) *)
-Lemma capless_nil m sch env cs e t c : capless e = true -> tc m sch env cs e = Some (t, c) -> c = [].
-Proof.
-  destruct e; cbn [capless]; try discriminate; intros Hc H.
-  - destruct p; cbn [tc] in H; try (inversion H; reflexivity).
-    destruct (euid_literal_ty sch u); inversion H; reflexivity.
-  - cbn [tc] in H. destruct (ty_of_var sch env v); inversion H; reflexivity.
-  - destruct op; try discriminate Hc. cbn [tc] in H.
-    destruct (expect (tc m sch env cs e) [TBool BAny]) as [[ty0 c0]|]; [|discriminate].
-    destruct ty0 as [|b0| | | | | |]; try destruct b0; inversion H; reflexivity.
-  - destruct op; try discriminate Hc. cbn [tc] in H.
-    destruct (tc m sch env cs e1) as [[? ?]|]; [|discriminate].
-    destruct (tc m sch env cs e2) as [[? ?]|]; [|discriminate].
-    destruct (is_strict m); [destruct (strict_eq_ok _ _ _ _)|]; inversion H; reflexivity.
-  - cbn [tc] in H. destruct (expect _ _) as [[? ?]|]; [|discriminate].
-    destruct (lookup_attr_ty _ _ _) as [[? ?]|]; [|discriminate].
-    destruct (_ || _); inversion H; reflexivity.
-Qed.
-
+   ||  (capabilities on both sides: intersection; a True-typed right operand exports its capabilities) *)
 Lemma sound_or m sch env q es a b :
-  capless b = true ->
-  (forall cs t cs', caps_hold q es cs -> tc m sch env cs a = Some (t, cs') -> sound_result q es a t cs') ->
-  (forall cs t cs', caps_hold q es cs -> tc m sch env cs b = Some (t, cs') -> sound_result q es b t cs') ->
-  forall cs t cs', caps_hold q es cs -> tc m sch env cs (Or a b) = Some (t, cs') -> sound_result q es (Or a b) t cs'.
+  IHfor m sch env q es a -> IHfor m sch env q es b -> IHfor m sch env q es (Or a b).
 Proof.
-  intros Hcl IHa IHb cs t cs' Hcs Htc. cbn [tc] in Htc.
-  destruct (expect (tc m sch env cs a) [TBool BAny]) as [[ta ca]|] eqn:Ea; [|discriminate].
-  apply expect_inv in Ea. destruct Ea as [Ea Hsa].
-  destruct (IHa _ _ _ Hcs Ea) as [(c & He & Hc)|(va & He & Hva & Hcapa)].
-  { left. exists c. rewrite eval_or, He. auto. }
-  destruct (boolean_value _ _ Hsa Hva) as (xa & ba & -> & -> & Hba).
-  unfold sound_result. rewrite eval_or, He. cbn [bind as_bool VBool].
-  destruct xa.
-  - (* ta = Bool *)
-    destruct (expect (tc m sch env cs b) [TBool BAny]) as [[tb cb]|] eqn:Eb; [|discriminate].
-    apply expect_inv in Eb. destruct Eb as [Eb Hsb].
-    pose proof (capless_nil _ _ _ _ _ _ _ Hcl Eb) as ->.
+  intros IHa IHb cs t cs' Hcs Htc. cbn [tc] in Htc.
+  get_expect Htc ta ca Ea. apply expect_inv in Ea. destruct Ea as [Ea Hsa].
+  destruct (IHa _ _ _ Hcs Ea) as [Sa Da].
+  split.
+  - destruct (sub_bool_shape _ Hsa) as [[xa ->]| ->]; [destruct xa|];
+      try (inversion Htc; subst; stat; fail);
+      (get_expect Htc tb cb Eb; apply expect_inv in Eb; destruct Eb as [Eb Hsb];
+       destruct (IHb _ _ _ Hcs Eb) as [Sb _];
+       destruct (sub_bool_shape _ Hsb) as [[xb ->]| ->]; [destruct xb|]; inversion Htc; subst; stat).
+  - unfold dyn_result. destruct Da as [(c & He & Hc)|(va & He & Hva & Hcapa)].
+    { left. exists c. rewrite eval_or, He. auto. }
+    destruct (boolean_value _ _ Hsa Hva) as (xa & ba & -> & -> & Hba).
+    rewrite eval_or, He. cbn [bind as_bool VBool].
     destruct ba.
-    + right. exists (VBool true). split; [reflexivity|].
-      destruct (sub_bool_shape _ Hsb) as [[xb ->]| ->]; [destruct xb|]; inversion Htc; subst;
-        (split; [apply conf_vbool; auto|]); intros _; try apply caps_hold_nil; try (apply caps_hold_inter, caps_hold_nil); auto.
-    + destruct (IHb _ _ _ Hcs Eb) as [(c & He2 & Hc)|(vb & He2 & Hvb & Hcapb)].
-      { left. exists c. rewrite He2. auto. }
-      destruct (boolean_value _ _ Hsb Hvb) as (xb & bb & -> & -> & Hbb).
-      right. rewrite He2. cbn [bind as_bool VBool]. exists (VBool bb). split; [reflexivity|].
-      destruct xb; inversion Htc; subst; (split; [apply conf_vbool; auto|]); intros Hv; apply vbool_inj in Hv; subst;
-        try discriminate; try apply caps_hold_nil; try (apply caps_hold_inter, caps_hold_nil).
-  - (* ta = True *)
-    subst ba. inversion Htc; subst. right. exists (VBool true). split; [reflexivity|].
-    split; [apply conf_vbool; auto|]. intros _. auto.
-  - (* ta = False *)
-    subst ba.
-    destruct (expect (tc m sch env cs b) [TBool BAny]) as [[tb cb]|] eqn:Eb; [|discriminate].
-    apply expect_inv in Eb. destruct Eb as [Eb Hsb].
-    pose proof (capless_nil _ _ _ _ _ _ _ Hcl Eb) as ->.
-    destruct (IHb _ _ _ Hcs Eb) as [(c & He2 & Hc)|(vb & He2 & Hvb & Hcapb)].
-    { left. exists c. rewrite He2. auto. }
-    destruct (boolean_value _ _ Hsb Hvb) as (xb & bb & -> & -> & Hbb).
-    right. rewrite He2. cbn [bind as_bool VBool]. exists (VBool bb). split; [reflexivity|].
-    destruct xb; inversion Htc; subst; (split; [apply conf_vbool; auto|]); intros Hv; apply vbool_inj in Hv; subst;
-      try discriminate; try apply caps_hold_nil; auto.
+    + (* left operand true: the right one is not evaluated *)
+      right. exists (VBool true). split; [reflexivity|].
+      destruct xa; try discriminate Hba.
+      * get_expect Htc tb cb Eb. apply expect_inv in Eb. destruct Eb as [Eb Hsb].
+        destruct (IHb _ _ _ Hcs Eb) as [Sb _].
+        destruct (sub_bool_shape _ Hsb) as [[xb ->]| ->]; [destruct xb|]; inversion Htc; subst;
+          (split; [apply conf_vbool; auto|]); intros _; eauto 6 with c03.
+      * inversion Htc; subst. split; [apply conf_vbool; auto|]. intros _. auto.
+    + destruct xa; try discriminate Hba;
+        (get_expect Htc tb cb Eb; apply expect_inv in Eb; destruct Eb as [Eb Hsb];
+         destruct (IHb _ _ _ Hcs Eb) as [Sb [(c & He2 & Hc)|(vb & He2 & Hvb & Hcapb)]];
+         [left; exists c; rewrite He2; auto|];
+         destruct (boolean_value _ _ Hsb Hvb) as (xb & bb & -> & -> & Hbb);
+         right; rewrite He2; cbn [bind as_bool VBool]; exists (VBool bb); split; [reflexivity|];
+         destruct xb; inversion Htc; subst;
+         (split; [apply conf_vbool; auto|]); intros Hv; apply vbool_inj in Hv; subst; try discriminate; eauto 6 with c03).
 Qed.
 
 (* ---------------------------------------------------------------------------------------
    ! *)
 Lemma sound_not m sch env q es a :
-  (forall cs t cs', caps_hold q es cs -> tc m sch env cs a = Some (t, cs') -> sound_result q es a t cs') ->
-  forall cs t cs', caps_hold q es cs -> tc m sch env cs (UnApp UNot a) = Some (t, cs') -> sound_result q es (UnApp UNot a) t cs'.
+  IHfor m sch env q es a -> IHfor m sch env q es (UnApp UNot a).
 Proof.
   intros IHa cs t cs' Hcs Htc. cbn [tc] in Htc.
-  destruct (expect (tc m sch env cs a) [TBool BAny]) as [[ta ca]|] eqn:Ea; [|discriminate].
-  apply expect_inv in Ea. destruct Ea as [Ea Hsa].
-  destruct (IHa _ _ _ Hcs Ea) as [(c & He & Hc)|(va & He & Hva & Hcapa)].
+  get_expect Htc ta ca Ea. apply expect_inv in Ea. destruct Ea as [Ea Hsa].
+  destruct (IHa _ _ _ Hcs Ea) as [Sa Da].
+  assert (Hnil : cs' = []).
+  { destruct ta as [|b0| | | | | |]; try destruct b0; inversion Htc; reflexivity. }
+  subst cs'. split; [intros _; apply caps_hold_nil|].
+  unfold dyn_result. destruct Da as [(c & He & Hc)|(va & He & Hva & Hcapa)].
   { left. exists c. rewrite eval_not, He. auto. }
   destruct (boolean_value _ _ Hsa Hva) as (xa & ba & -> & -> & Hba).
   right. rewrite eval_not, He. cbn [bind unary_app as_bool VBool]. exists (VBool (negb ba)). split; [reflexivity|].
   destruct xa; inversion Htc; subst; (split; [apply conf_vbool; cbn; auto|]); intros _; apply caps_hold_nil.
-Qed.
-
-(* ---------------------------------------------------------------------------------------
-   literals and variables *)
-Lemma name_eqb_refl n : name_eqb n n = true.
-Proof. apply strs_eqb_eq. reflexivity. Qed.
-
-Lemma euid_literal_ty_inv sch u t : euid_literal_ty sch u = Some t -> t = ty_entity (uty u).
-Proof.
-  unfold euid_literal_ty. destruct (is_action_type (uty u)).
-  - destruct (known_action sch u); intros H; inversion H; reflexivity.
-  - destruct (find_etype sch (uty u)); intros H; inversion H; reflexivity.
-Qed.
-
-Lemma conf_entity_single u : TypeConforms (VEntity u) (ty_entity (uty u)).
-Proof. apply TC_entity. left. reflexivity. Qed.
-
-Lemma sound_lit m sch env q es p cs t cs' :
-  tc m sch env cs (Lit p) = Some (t, cs') -> sound_result q es (Lit p) t cs'.
-Proof.
-  intros Htc. right. exists (VPrim p). split; [reflexivity|].
-  destruct p; cbn [tc] in Htc.
-  - inversion Htc; subst. split; [destruct b; constructor|]. intros _; apply caps_hold_nil.
-  - inversion Htc; subst. split; [constructor|]. intros _; apply caps_hold_nil.
-  - inversion Htc; subst. split; [constructor|]. intros _; apply caps_hold_nil.
-  - destruct (euid_literal_ty sch u) eqn:E; [|discriminate]. inversion Htc; subst.
-    apply euid_literal_ty_inv in E. subst. split; [apply conf_entity_single|]. intros _; apply caps_hold_nil.
-Qed.
-
-Lemma sound_var m sch env q es v cs t cs' :
-  env_ok env q ->
-  tc m sch env cs (Var v) = Some (t, cs') -> sound_result q es (Var v) t cs'.
-Proof.
-  intros [Hp Ha Hr Hc] Htc. right. exists (eval_var q v). split; [reflexivity|].
-  cbn [tc] in Htc. destruct (ty_of_var sch env v) eqn:E; [|discriminate]. inversion Htc; subst.
-  split; [|intros _; apply caps_hold_nil].
-  destruct v; cbn [ty_of_var eval_var] in *.
-  - inversion E; subst. rewrite <- Hp. apply conf_entity_single.
-  - apply euid_literal_ty_inv in E. subst. rewrite <- Ha. apply conf_entity_single.
-  - inversion E; subst. rewrite <- Hr. apply conf_entity_single.
-  - inversion E; subst. exact Hc.
 Qed.
 
 (* ---------------------------------------------------------------------------------------
@@ -315,19 +266,18 @@ Qed.
 
 Lemma sound_eq m sch env q es a b :
   env_ok env q ->
-  (forall cs t cs', caps_hold q es cs -> tc m sch env cs a = Some (t, cs') -> sound_result q es a t cs') ->
-  (forall cs t cs', caps_hold q es cs -> tc m sch env cs b = Some (t, cs') -> sound_result q es b t cs') ->
-  forall cs t cs', caps_hold q es cs -> tc m sch env cs (BinApp BEq a b) = Some (t, cs') -> sound_result q es (BinApp BEq a b) t cs'.
+  IHfor m sch env q es a -> IHfor m sch env q es b -> IHfor m sch env q es (BinApp BEq a b).
 Proof.
   intros Henv IHa IHb cs t cs' Hcs Htc. cbn [tc] in Htc.
   destruct (tc m sch env cs a) as [[ta ca]|] eqn:Ea; [|discriminate].
   destruct (tc m sch env cs b) as [[tb cb]|] eqn:Eb; [|discriminate].
   assert (Ht : t = type_of_equality env a ta b tb /\ cs' = []).
   { destruct (is_strict m); [destruct (strict_eq_ok _ _ _ _)|]; inversion Htc; auto. }
-  destruct Ht as [-> ->]. clear Htc.
-  destruct (IHa _ _ _ Hcs Ea) as [(c & He & Hc)|(va & He & Hva & _)].
+  destruct Ht as [-> ->]. clear Htc. split; [intros _; apply caps_hold_nil|].
+  unfold dyn_result.
+  destruct (IHa _ _ _ Hcs Ea) as [_ [(c & He & Hc)|(va & He & Hva & _)]].
   { left. exists c. rewrite eval_eq, He. auto. }
-  destruct (IHb _ _ _ Hcs Eb) as [(c & He2 & Hc)|(vb & He2 & Hvb & _)].
+  destruct (IHb _ _ _ Hcs Eb) as [_ [(c & He2 & Hc)|(vb & He2 & Hvb & _)]].
   { left. exists c. rewrite eval_eq, He, He2. auto. }
   right. exists (VBool (value_eqb va vb)). rewrite eval_eq, He, He2. split; [reflexivity|].
   split; [|intros _; apply caps_hold_nil].
@@ -340,148 +290,43 @@ Proof.
 Qed.
 
 (* ---------------------------------------------------------------------------------------
-   has / . on the context record, with capabilities *)
-Lemma lookup_In {V} k (l : list (str * V)) v : lookup k l = Some v -> In (k, v) l.
+   literals and variables *)
+Lemma euid_literal_ty_inv sch u t : euid_literal_ty sch u = Some t -> t = ty_entity (uty u).
 Proof.
-  induction l as [|[k' v'] l IH]; cbn; [discriminate|].
-  destruct (str_eqb k k') eqn:E.
-  - intros H; inversion H; subst. apply str_eqb_eq in E. subst. left; reflexivity.
-  - intros H. right. auto.
+  unfold euid_literal_ty. destruct (is_action_type (uty u)).
+  - destruct (known_action sch u); intros H; inversion H; reflexivity.
+  - destruct (find_etype sch (uty u)); intros H; inversion H; reflexivity.
 Qed.
 
-Lemma has_key_lookup {V} k (l : list (str * V)) : has_key k l = true -> exists v, lookup k l = Some v.
-Proof. unfold has_key. destruct (lookup k l); [eauto|discriminate]. Qed.
+Lemma conf_entity_single u : TypeConforms (VEntity u) (ty_entity (uty u)).
+Proof. apply TC_entity. left. reflexivity. Qed.
 
-Lemma lookup_has_key {V} k (l : list (str * V)) v : lookup k l = Some v -> has_key k l = true.
-Proof. unfold has_key. intros ->. reflexivity. Qed.
-
-(* a capability (Var Context, a) found in a set that holds *)
-Lemma cap_eqb_ctx c a : cap_eqb (cap_attr (Var Context) a) c = true -> c = cap_attr (Var Context) a.
+Lemma sound_lit m sch env q es p : IHfor m sch env q es (Lit p).
 Proof.
-  destruct c as [k on what]. unfold cap_eqb, cap_attr. cbn [c_kind c_on c_what].
-  intros H. apply andb_prop in H. destruct H as [H H3]. apply andb_prop in H. destruct H as [H1 H2].
-  destruct k; try discriminate.
-  destruct on; try discriminate. destruct v; try discriminate.
-  destruct what; try discriminate. cbn [expr_eqb] in H3. apply prim_eqb_eq in H3. subst. reflexivity.
+  intros cs t cs' _ Htc.
+  assert (Hnil : cs' = []).
+  { destruct p; cbn [tc] in Htc; try (inversion Htc; reflexivity).
+    destruct (euid_literal_ty sch u); inversion Htc; reflexivity. }
+  subst cs'. split; [intros _; apply caps_hold_nil|].
+  right. exists (VPrim p). split; [reflexivity|]. split; [|intros _; apply caps_hold_nil].
+  destruct p; cbn [tc] in Htc.
+  - inversion Htc; subst. destruct b; constructor.
+  - inversion Htc; subst. constructor.
+  - inversion Htc; subst. constructor.
+  - destruct (euid_literal_ty sch u) eqn:E; [|discriminate]. inversion Htc; subst.
+    apply euid_literal_ty_inv in E. subst. apply conf_entity_single.
 Qed.
 
-Lemma caps_mem_ctx q es cs a :
-  caps_mem (cap_attr (Var Context) a) cs = true -> caps_hold q es cs ->
-  has_key a (rcontext q) = true.
+Lemma sound_var m sch env q es v : env_ok env q -> IHfor m sch env q es (Var v).
 Proof.
-  intros Hm Hh. unfold caps_mem in Hm. apply existsb_exists in Hm. destruct Hm as (c & Hin & Heq).
-  apply cap_eqb_ctx in Heq. subst c. specialize (Hh _ Hin). cbn in Hh.
-  specialize (Hh _ eq_refl). cbn in Hh. inversion Hh. reflexivity.
+  intros [Hp Ha Hr Hc] cs t cs' _ Htc.
+  cbn [tc] in Htc. destruct (ty_of_var sch env v) eqn:E; [|discriminate]. inversion Htc; subst.
+  split; [intros _; apply caps_hold_nil|].
+  right. exists (eval_var q v). split; [reflexivity|]. split; [|intros _; apply caps_hold_nil].
+  destruct v; cbn [ty_of_var eval_var] in *.
+  - inversion E; subst. rewrite <- Hp. apply conf_entity_single.
+  - apply euid_literal_ty_inv in E. subst. rewrite <- Ha. apply conf_entity_single.
+  - inversion E; subst. rewrite <- Hr. apply conf_entity_single.
+  - inversion E; subst. exact Hc.
 Qed.
 
-Lemma ctx_record env q : env_ok env q -> exists attrs o, re_context env = TRecord attrs o /\
-  (forall k t, In (k, (t, true)) attrs -> has_key k (rcontext q) = true) /\
-  (forall k v, In (k, v) (rcontext q) -> forall t r, lookup k attrs = Some (t, r) -> TypeConforms v t) /\
-  (o = false -> forall k v, In (k, v) (rcontext q) -> has_key k attrs = true).
-Proof.
-  intros [_ _ _ Hc]. inversion Hc; subst. exists attrs, open. auto.
-Qed.
-
-Lemma tc_var_ctx m sch env cs t c :
-  tc m sch env cs (Var Context) = Some (t, c) -> t = re_context env /\ c = [].
-Proof. cbn. intros H; inversion H; auto. Qed.
-
-Lemma sound_hasattr_ctx m sch env q es a cs t cs' :
-  env_ok env q -> caps_hold q es cs ->
-  tc m sch env cs (HasAttr (Var Context) a) = Some (t, cs') -> sound_result q es (HasAttr (Var Context) a) t cs'.
-Proof.
-  intros Henv Hcs Htc. destruct (ctx_record _ _ Henv) as (attrs & o & Hty & R1 & R2 & R3).
-  right. exists (VBool (has_key a (rcontext q))). split; [reflexivity|].
-  assert (Hcap : VBool (has_key a (rcontext q)) = VBool true -> caps_hold q es [cap_attr (Var Context) a]).
-  { intros Hv. apply vbool_inj in Hv. intros c [<-|[]]. cbn. intros v Hev. inversion Hev; subst. cbn. rewrite Hv. reflexivity. }
-  cbn [tc] in Htc.
-  match type of Htc with context [expect ?r ?l] => destruct (expect r l) as [[tx cx]|] eqn:Ex end; [|discriminate].
-  apply expect_inv in Ex. destruct Ex as [Ex _]. apply tc_var_ctx in Ex. destruct Ex as [-> ->].
-  rewrite Hty in Htc. cbn [lookup_attr_ty] in Htc.
-  destruct (lookup a attrs) as [[ta [|]]|] eqn:El.
-  - (* required attribute of a record: True *)
-    cbn in Htc. inversion Htc; subst. rewrite (R1 _ _ (lookup_In _ _ _ El)) in *.
-    split; [constructor|auto].
-  - destruct (caps_mem (cap_attr (Var Context) a) cs) eqn:Em; inversion Htc; subst.
-    + rewrite (caps_mem_ctx _ _ _ _ Em Hcs) in *. split; [constructor|auto].
-    + split; [apply conf_vbool; exact I|auto].
-  - cbn [may_have_attr] in Htc. inversion Htc; subst.
-    split; [|intros _; apply caps_hold_nil].
-    destruct o; cbn [orb].
-    + apply conf_vbool; exact I.
-    + assert (Hk : has_key a attrs = false) by (unfold has_key; rewrite El; reflexivity). rewrite Hk.
-      destruct (has_key a (rcontext q)) eqn:Eh; [|constructor].
-      destruct (has_key_lookup _ _ Eh) as (v & Hv). apply lookup_In in Hv.
-      rewrite (R3 eq_refl _ _ Hv) in Hk. discriminate.
-  - assumption.
-  - assumption.
-  - assumption.
-Qed.
-
-Lemma sound_getattr_ctx m sch env q es a cs t cs' :
-  env_ok env q -> caps_hold q es cs ->
-  tc m sch env cs (GetAttr (Var Context) a) = Some (t, cs') -> sound_result q es (GetAttr (Var Context) a) t cs'.
-Proof.
-  intros Henv Hcs Htc. destruct (ctx_record _ _ Henv) as (attrs & o & Hty & R1 & R2 & R3).
-  cbn [tc] in Htc.
-  match type of Htc with context [expect ?r ?l] => destruct (expect r l) as [[tx cx]|] eqn:Ex end; [|discriminate].
-  apply expect_inv in Ex. destruct Ex as [Ex _]. apply tc_var_ctx in Ex. destruct Ex as [-> ->].
-  rewrite Hty in Htc. cbn [lookup_attr_ty] in Htc.
-  destruct (lookup a attrs) as [[ta req]|] eqn:El; [|discriminate].
-  destruct (req || caps_mem (cap_attr (Var Context) a) cs) eqn:Eg; [|discriminate].
-  inversion Htc; subst.
-  assert (Hk : has_key a (rcontext q) = true).
-  { destruct req.
-    - apply (R1 _ _ (lookup_In _ _ _ El)).
-    - cbn in Eg. eapply caps_mem_ctx; eauto. }
-  destruct (has_key_lookup _ _ Hk) as (v & Hv).
-  right. exists v. split; [cbn; rewrite Hv; reflexivity|].
-  split; [eapply R2; eauto using lookup_In|]. intros _; apply caps_hold_nil.
-all: try assumption.
-Qed.
-
-
-(* ---------------------------------------------------------------------------------------
-   the main induction *)
-Theorem tc_sound m sch env q es :
-  env_ok env q ->
-  forall e, in_fragment e = true ->
-  forall cs t cs', caps_hold q es cs -> tc m sch env cs e = Some (t, cs') -> sound_result q es e t cs'.
-Proof.
-  intros Henv. induction e; cbn [in_fragment]; try discriminate; intros Hf.
-  - intros cs t cs' _ H. eapply sound_lit; eauto.
-  - intros cs t cs' _ H. eapply sound_var; eauto.
-  - apply andb_prop in Hf. destruct Hf as [H1 H2]. apply sound_and; [apply IHe1; exact H1|apply IHe2; exact H2].
-  - apply andb_prop in Hf. destruct Hf as [Hf H3]. apply andb_prop in Hf. destruct Hf as [H1 H2]. apply sound_or; [exact H3|apply IHe1; exact H1|apply IHe2; exact H2].
-  - destruct op; try discriminate. apply sound_not. apply IHe. exact Hf.
-  - destruct op; try discriminate. apply andb_prop in Hf. destruct Hf as [H1 H2]. apply sound_eq; [exact Henv|apply IHe1; exact H1|apply IHe2; exact H2].
-  - destruct e; try discriminate. destruct v; try discriminate.
-    intros cs t cs' Hcs H. eapply sound_getattr_ctx; eauto.
-  - destruct e; try discriminate. destruct v; try discriminate.
-    intros cs t cs' Hcs H. eapply sound_hasattr_ctx; eauto.
-Qed.
-
-(* a policy condition typed False is never satisfied *)
-Corollary tc_impossible m sch env q es e cs cs' :
-  env_ok env q -> in_fragment e = true -> caps_hold q es cs ->
-  tc m sch env cs e = Some (TBool BFalse, cs') -> eval [] q es e <> Ok (VBool true).
-Proof.
-  intros Henv Hf Hcs Htc Hev.
-  destruct (tc_sound m sch env q es Henv e Hf _ _ _ Hcs Htc) as [(c & He & _)|(v & He & Hv & _)].
-  - rewrite Hev in He. discriminate.
-  - rewrite Hev in He. inversion He; subst. inversion Hv.
-Qed.
-
-(* the policy-level statement: an accepted condition evaluates to a boolean or fails with a permitted error *)
-Corollary tc_env_sound m sch env q es e t :
-  env_ok env q -> in_fragment e = true ->
-  tc_env m sch env e = EnvSuccess t \/ tc_env m sch env e = EnvIrrelevant ->
-  (exists c, eval [] q es e = Err c /\ allowed_err c) \/ (exists b, eval [] q es e = Ok (VBool b)).
-Proof.
-  intros Henv Hf Hok. unfold tc_env in Hok.
-  destruct (expect (tc m sch env [] e) [TBool BAny]) as [[t0 c0]|] eqn:E.
-  2:{ destruct Hok; discriminate. }
-  apply expect_inv in E. destruct E as [E Hs].
-  destruct (tc_sound m sch env q es Henv e Hf _ _ _ (caps_hold_nil q es) E) as [H|(v & He & Hv & _)]; [left; exact H|].
-  destruct (boolean_value _ _ Hs Hv) as (x & b & _ & -> & _). right. eauto.
-Qed.
